@@ -128,6 +128,28 @@ def check_table(ck, facts, R, body, spec, what):
     return n
 
 
+def kind_match_decides(ck, R, body, what, allowed_first=()):
+    """K3 (on THIR): the outcome for a type is decided by the TyKind table alone: every `return` / `?` of the function sits inside an
+    arm of the match on TyKind (no early exit in front of the table that would switch the structural rule off - e.g. because the
+    program has *some* explicit impl for the same type constructor, or a flag of the trait)."""
+    ms = enum_matches(body.thir, TYKIND)
+    inst = "%s:table-decides" % what
+    if len(ms) != 1:
+        ck.violation(R, inst + ":missing-anchor", body.where(), "expected exactly one match on TyKind")
+        return
+    inside = set()
+    for arm in ms[0]["arms"]:
+        for n in walk(arm["body"], skip_tracing=False):
+            inside.add(id(n))
+    from kit import user_block
+    stray = [n for n in walk(user_block(body.thir)) if n.get("k") == "return" and id(n) not in inside]
+    if stray:
+        ck.violation(R, inst, body.where(stray[0].get("ln")), "the function can return before / outside the TyKind table: the built-in "
+                     "rule can be bypassed for every type at once")
+    else:
+        ck.ok(R, inst, "no return outside the arms of the TyKind match")
+
+
 def run(ck, facts, tier):
     R = "C08.SIZED-TABLE"
     ck.rule(R, "K1 vs spec: add_sized_program_clauses maps every TyKind to the outcome class the language rules dictate")
@@ -135,12 +157,14 @@ def run(ck, facts, tier):
     if sz:
         n = check_table(ck, facts, R, sz, SIZED_SPEC, "sized")
         ck.floor(R, "cells", n, 30)
+        kind_match_decides(ck, R, sz, "sized")
     R = "C08.COPY-TABLE"
     ck.rule(R, "K1 vs spec: add_copy_program_clauses maps every TyKind to the outcome class the language rules dictate")
     cp = need_body(ck, facts, R, BT + "copy::add_copy_program_clauses")
     if cp:
         n = check_table(ck, facts, R, cp, COPY_SPEC, "copy")
         ck.floor(R, "cells", n, 30)
+        kind_match_decides(ck, R, cp, "copy")
         # Array arm: the condition is on the element type bound by the pattern; Closure arm: on the upvars
         m = enum_matches(cp.thir, TYKIND)
         if m:
@@ -235,6 +259,7 @@ def run(ck, facts, tier):
     ck.rule(R, "K1 vs spec: the Tuple trait holds for TyKind::Tuple only; flounders on variables/aliases; nothing else")
     tp = need_body(ck, facts, R, BT + "tuple::add_tuple_program_clauses")
     if tp:
+        kind_match_decides(ck, R, tp, "tuple")
         ms = enum_matches(tp.thir, TYKIND)
         if len(ms) != 1:
             ck.violation(R, "tuple:match", tp.where(), "expected one match on TyKind")
